@@ -244,6 +244,50 @@ def check_reset_completeness(ctx, rid):
                    and repo.lookup_class_attr(c, x)[0] is None)
     ctx.ob(rid, 'no-unset-state', f'{c.mod.relpath}:{c.node.lineno}', 'every self.<attr> the splitter reads is initialised', not ghost,
            f'read but never stored: {ghost}')
+    # per-statement state kept in locals of process(): every loop-carried local is re-initialised when a statement is flushed
+    try:
+        f, lp, (tv, vv) = splitter_loop(ctx)
+    except AnalysisError:
+        return sorted(stored)
+
+    def stores(stmts):
+        out = set()
+        for s_ in stmts:
+            for n_ in ast.walk(s_):
+                if isinstance(n_, ast.Name) and isinstance(n_.ctx, ast.Store):
+                    out.add(n_.id)
+        return out
+    idx = f.node.body.index(lp)
+    before = stores(f.node.body[:idx])
+    inside = stores(lp.body)
+    carried = sorted((before & inside) - {tv, vv})
+    if carried:
+        for p in enum_paths(lp.body):
+            st = p.stmts()
+            ys = [i for i, s_ in enumerate(st) if isinstance(s_, ast.Expr) and isinstance(s_.value, (ast.Yield, ast.YieldFrom))]
+            if not ys:
+                continue
+            after = st[ys[-1] + 1:]
+            plain = set()
+            for s_ in after:
+                if isinstance(s_, ast.Assign):
+                    for t in s_.targets:
+                        for n_ in ast.walk(t):
+                            if isinstance(n_, ast.Name):
+                                plain.add(n_.id)
+            # the first thing that happens to the variable after the flush must be a plain re-initialisation
+            missing = []
+            for v in carried:
+                first = next((s_ for s_ in after if any(isinstance(n_, ast.Name) and n_.id == v for n_ in ast.walk(s_))), None)
+                ok_v = isinstance(first, ast.Assign) and v in {n_.id for t in first.targets for n_ in ast.walk(t) if isinstance(n_, ast.Name)} \
+                    and not any(isinstance(n_, ast.Name) and n_.id == v for n_ in ast.walk(first.value))
+                if not ok_v:
+                    missing.append(v)
+            desc = ' ∧ '.join(f'{"" if pol else "not "}({src(t)})' for t, pol in p.tests())[:120] or 'always'
+            ctx.ob(rid, f'carried-locals[{desc}]', f'{f.mod.relpath}:{st[ys[-1]].lineno}',
+                   f'per-statement state kept in locals of process() ({carried}) is re-initialised after a statement is yielded', not missing,
+                   f'{missing} keep(s) the value of the finished statement: e.g. a split level left at -1 by a plain `... CASE ... END;` cancels the +1 of the '
+                   'next CREATE ... BEGIN, whose body is then cut at every ";"')
     return sorted(stored)
 
 
@@ -289,6 +333,18 @@ def check_driver_order(ctx, rid):
                     and is_name(u.value, via)]
             flows = len(uses) == 1 and (s.value is c or (isinstance(s.value, ast.IfExp) and (s.value.body is c or s.value.orelse is c)))
         before_append = bool(apps) and i < apps[0]
+        level_stores = [u for u in st if isinstance(u, (ast.AugAssign, ast.Assign)) and any(is_attr(t, 'level', 'self') for t in (
+            u.targets if isinstance(u, ast.Assign) else [u.target]))]
+        if not level_stores and not flows and okargs and not resets_after and not yields_after:
+            # the level is not kept in self.level (locals?): the flow of the delta cannot be judged by this rule
+            carried_ok = via is not None and any(isinstance(u, ast.AugAssign) and isinstance(u.target, ast.Name) and is_name(u.value, via) for u in st[i + 1:]) \
+                or any(isinstance(u, ast.AugAssign) and isinstance(u.target, ast.Name) and u.value is c for u in st)
+            if carried_ok:
+                ctx.ob(rid, key, loc, 'classification follows the reset of the previous statement; its delta is added to the (local) level', before_append,
+                       'the token is appended before it is classified')
+                continue
+            ctx.ob(rid, key, loc, 'the flow of the level delta is recognisable', None, 'no store to self.level and no local level variable fed by the call')
+            continue
         ok = okargs and not resets_after and not yields_after and flows and before_append
         why = []
         if not okargs:
